@@ -20,6 +20,16 @@ let cmp_of = function
 
 let join_hex sep l = if l = [] then "none" else String.concat sep (List.map hex_of_bytes l)
 
+(* component: growcap -- capacity arithmetic of Grow alone (sizes around the 1 GiB clamp).  op: gb <cur> <off> <n> *)
+let () = register "growcap" (fun _ ->
+  (fun op ->
+    match op with
+    | [ "gb"; cur; off; n ] ->
+        let cur = n_of_string cur and off = n_of_string off and n = n_of_string n in
+        let c' = if N.ltb (N.add off n) cur then cur else N.add cur (grow_by cur n) in
+        Printf.sprintf "%s %s" (string_of_n c') (string_of_n c')
+    | _ -> "ok"))
+
 let () = register "buffer" (fun args ->
   match args with
   | [ mode; cap; auto; maxsz ] ->
